@@ -351,7 +351,21 @@ func (w *world) diffs(b *block) (fces []consensus.FileContractElementDiff, v2 []
 		nf := fc2(int(r[0]), next, 4)
 		add2(consensus.V2FileContractElementDiff{V2FileContractElement: types.V2FileContractElement{ID: cid(int(r[0])), V2FileContract: fc2(int(r[0]), prev, 4)}, Revision: &nf}, nil)
 	}
+	// consensus reports ONE diff per contract and block: a contract revised and resolved in the same
+	// block carries both Revision and Resolution in a single diff
+	merge := func(n int, r types.V2FileContractResolutionType) bool {
+		for i := range v2 {
+			if v2[i].V2FileContractElement.ID == cid(n) && v2[i].Revision != nil && res[i] == nil {
+				res[i] = r
+				return true
+			}
+		}
+		return false
+	}
 	for i, n := range b.succ2 {
+		if merge(n, &types.V2StorageProof{}) {
+			continue
+		}
 		if (int(b.h)+i)%2 == 1 {
 			add2(consensus.V2FileContractElementDiff{V2FileContractElement: types.V2FileContractElement{ID: cid(n), V2FileContract: fc2(n, 1, 10)}}, &types.V2FileContractExpiration{})
 		} else {
@@ -359,9 +373,15 @@ func (w *world) diffs(b *block) (fces []consensus.FileContractElementDiff, v2 []
 		}
 	}
 	for _, n := range b.renew2 {
+		if merge(n, &types.V2FileContractRenewal{}) {
+			continue
+		}
 		add2(consensus.V2FileContractElementDiff{V2FileContractElement: types.V2FileContractElement{ID: cid(n), V2FileContract: fc2(n, 1, 4)}}, &types.V2FileContractRenewal{})
 	}
 	for _, n := range b.fail2 {
+		if merge(n, &types.V2FileContractExpiration{}) {
+			continue
+		}
 		add2(consensus.V2FileContractElementDiff{V2FileContractElement: types.V2FileContractElement{ID: cid(n), V2FileContract: fc2(n, 1, 4)}}, &types.V2FileContractExpiration{})
 	}
 	return
